@@ -44,6 +44,9 @@ func (s *syncBuf) String() string              { s.mu.Lock(); defer s.mu.Unlock(
 const c03Limit = 10 * time.Second // 10 x the configured 1 s timeouts
 
 // one faulted request; returns how it ended and how long it took
+// the healthy answer: long and compressible enough for the gzip plugin to act on it
+var c03Healthy = strings.Repeat("healthy answer. ", 16)
+
 func c03Fault(h *helios, fbs []*wire.FaultBackend, fault string, slowStall time.Duration) (string, time.Duration) {
 	mode := fault
 	switch fault {
@@ -69,12 +72,12 @@ func c03Fault(h *helios, fbs []*wire.FaultBackend, fault string, slowStall time.
 		time.Sleep(50 * time.Millisecond)
 		return "client-aborted", time.Since(start)
 	case "client-abort-download":
-		fmt.Fprintf(c, "GET /big HTTP/1.1\r\nHost: x.test\r\n\r\n")
+		fmt.Fprintf(c, "GET /big HTTP/1.1\r\nHost: x.test\r\nAccept-Encoding: gzip\r\n\r\n")
 		buf := make([]byte, 1024)
 		io.ReadFull(c, buf)
 		return "client-aborted", time.Since(start)
 	}
-	fmt.Fprintf(c, "GET /f HTTP/1.1\r\nHost: x.test\r\nConnection: close\r\n\r\n")
+	fmt.Fprintf(c, "GET /f HTTP/1.1\r\nHost: x.test\r\nAccept-Encoding: gzip\r\nConnection: close\r\n\r\n")
 	data, rerr := io.ReadAll(c)
 	d := time.Since(start)
 	if ne, ok := rerr.(net.Error); ok && ne.Timeout() {
@@ -93,6 +96,9 @@ func c03Run(cfgc c03Cfg, seq []string, concurrent bool, longStall bool) (key, wh
 			fb.Close()
 		}
 	}()
+	for _, fb := range fbs {
+		fb.HealthyBody = c03Healthy
+	}
 	cfg := baseConfig(cfgc.Strategy, fbs[0].URL(), fbs[1].URL())
 	cfg.Server.Timeouts = config.TimeoutConfig{Read: 1, Write: 1, Idle: 1, Handler: 1, Shutdown: 1, BackendDial: 1, BackendRead: 1, BackendIdle: 1}
 	if cfgc.Breaker {
@@ -161,11 +167,21 @@ func c03Run(cfgc c03Cfg, seq []string, concurrent bool, longStall bool) (key, wh
 	e := &exch{addr: h.addr}
 	defer e.close()
 	for i := 0; i < 5; i++ {
-		r := e.do(&wire.Request{Method: "GET", Target: "/probe", Header: []wire.HeaderLine{{"Host", "x.test"}, {"X-Forwarded-For", fmt.Sprintf("10.7.0.%d", i)}}, NoBody: true}, c03Limit)
+		hd := []wire.HeaderLine{{"Host", "x.test"}, {"X-Forwarded-For", fmt.Sprintf("10.7.0.%d", i)}}
+		if i%2 == 0 {
+			hd = append(hd, wire.HeaderLine{"Accept-Encoding", "gzip"})
+		}
+		r := e.do(&wire.Request{Method: "GET", Target: "/probe", Header: hd, NoBody: true}, c03Limit)
 		if r.Err != "" {
 			probes = append(probes, "err")
 		} else {
 			probes = append(probes, fmt.Sprint(r.Status))
+			// "succeeds normally": a 200 carries the healthy backend's body and nothing else
+			if r.Status == 200 {
+				if got, derr := c15Decode(r); derr != "" || string(got) != c03Healthy {
+					return "C03/wire/healthy-answer-damaged-after-faults", fmt.Sprintf("%s: probe %d after the faults got status 200 but its body (%d bytes after decoding, %s) is not the healthy backend's answer (%d bytes): %.60q", desc, i, len(got), derr, len(c03Healthy), got), outcome
+				}
+			}
 		}
 	}
 	if probes[2] != "200" || probes[3] != "200" || probes[4] != "200" {
